@@ -13,7 +13,10 @@ tie:   `interval` enclosures of the generated model at exact dyadic inputs again
        hypothesis of the phi-derivative theorems is validated against scipy.special.sph_harm_y.
 search: an independent multiprecision oracle (explicit Legendre sum, mpmath, 60 digits — shares neither the recursion nor
        SciPy): values of both implementations (l <= 20 / 40), both against each other (l <= 80 / 200), addition theorem
-       (l <= 30 / 60), both derivative blocks (l <= 12 / 30), solid harmonics, round trips incl. origin and z-axis.
+       (l <= 30 / 60), both derivative blocks (l <= 12 / 30), solid harmonics, round trips incl. origin and z-axis; high degree: both routines at l_max = 170, 220
+       (thorough: 300, 400) against each other on every row, addition theorem per degree, mpmath on the rows |m| >= l-2 and a sample.
+       When the translator fails closed or proofs about generated definitions break, every broken unit is reported with the first
+       failing input found by these searches (Ctx.broken_tie).
 """
 from __future__ import annotations
 
@@ -174,18 +177,52 @@ class Pending:
     def __init__(self, ctx):
         self.ctx = ctx
         self.items = []
+        self.seen = set()
 
     def add(self, size, ob, key, obs, text, rp, found=True):
+        if (ob, key) in self.seen:      # the same input reached by two searches is one finding
+            return
+        self.seen.add((ob, key))
         self.items.append((size, ob, key, obs, text, rp, found))
+
+    def candidates(self):
+        """concrete failing inputs found on the implementation, smallest degree first: (key, observed, text, replay)"""
+        return [(key, obs, text, rp) for size, ob, key, obs, text, rp, found in sorted(self.items, key=lambda t: (t[0], len(t[2]))) if found]
 
     def flush(self):
         per = {}
+        cands = self.candidates()
+        tied = set()
         for size, ob, key, obs, text, rp, found in sorted(self.items, key=lambda t: (t[0], len(t[2]))):
+            if not found:
+                # model and implementation disagree but the definition is met at this input: the tie is broken; report it with
+                # the first failing input the searches found (one line per kind)
+                if ob not in tied:
+                    tied.add(ob)
+                    self.ctx.broken_tie(ob, text, cands)
+                continue
             per[ob] = per.get(ob, 0) + 1
             if per[ob] <= MAXREP:
-                self.ctx.fail(ob, key, obs, text, rp, found_input=found)
+                self.ctx.fail(ob, key, obs, text, rp)
         if self.items:
             self.ctx.notes.append(f"{len(self.items)} disagreements in total; at most {MAXREP} reported per kind: " + json.dumps(per))
+
+
+def root_cause(ctx, fname, depth=0):
+    """the file whose own compilation error makes `fname` fail (follows 'skipped: dependency failed: ...')"""
+    log = ctx.logs.get(fname, "")
+    if log.startswith("skipped: dependency failed:") and depth < 20:
+        dep = log.split(":", 2)[2].split(",")[0].strip()
+        return root_cause(ctx, dep, depth + 1)
+    return fname
+
+
+def first_error(log):
+    lines = [x.strip() for x in log.splitlines() if x.strip()]
+    for i, x in enumerate(lines):
+        if x.startswith("Error"):
+            return " ".join(lines[max(0, i - 1):i + 3])[:300]
+    return (lines[-1] if lines else "")[:300]
 
 
 def close(a, b, tol=TOL):
@@ -216,19 +253,32 @@ def run(ctx: Ctx):
     # ------------------------------------------------------------------ gen
     src = (SRC / "utils.py").read_text()
     gen_ok = True
+    broken_units = []     # (what, error): units of the tie that no longer check; each gets the first failing input of the searches
     try:
         text, units, info = T.translate(src)
         ctx.gen("C08_gen.v", text, units)
         ctx.cov["oracle_calls"] = info["oracle_calls"]
-    except T.Unsupported as e:
+    except T.Unsupported as e:   # translator fails closed: the tie is broken; the implementation-side searches still run
         gen_ok = False
-        ctx.fail("gen_translate", "gen:utils.py", None,
-                 f"src/grid/utils.py left the shape the C08 model is generated from: {e}", {"error": str(e)}, found_input=False)
+        broken_units.append(("translator(utils.py)", f"src/grid/utils.py left the shape the C08 model is generated from: {e}"))
 
     # ------------------------------------------------------------------ prove
-    ctx.copy_coq("C08")
-    status = ctx.coq_build()
-    ctx.register_props(status)
+    status = {}
+    if gen_ok:
+        ctx.copy_coq("C08")
+        status = ctx.coq_build()
+        ctx.register_props(status)
+        # theorems that no longer check are grouped by the file whose proofs broke (one unit per cause)
+        groups = {}
+        for name, ob in list(ctx.obligations.items()):
+            if ob["status"] != "discharged":
+                groups.setdefault(root_cause(ctx, ob["file"]), []).append(name)
+                del ctx.obligations[name]
+        for root, names in groups.items():
+            what = f"proofs({root})"
+            ctx.add_obligation(what, False, file=root)
+            broken_units.append((what, f"{first_error(ctx.logs.get(root, ''))}; theorems affected: {', '.join(names)}"))
+            ctx.notes.append(f"{what}: {len(names)} theorems no longer check: {', '.join(names)}")
     mark("coq_build")
     model_ok = gen_ok and all(status.get(f, False) for f in
                               ("C08_gen.v", "C08_model_base.v", "C08_model_spec.v", "C08_model.v"))
@@ -467,9 +517,13 @@ def run(ctx: Ctx):
     # ================================================================== 7. search on the implementation (independent oracle)
     mark("oracle_validation")
     search(ctx, gu, mp, pend, angles)
-    outside_principal_range(ctx, gu, mp)
+    high_degree(ctx, gu, mp, pend)
+    outside_principal_range(ctx, gu, mp, pend)
     mark("search")
 
+    cands = pend.candidates()
+    for what, err in broken_units:
+        ctx.broken_tie(what, err, cands)
     pend.flush()
     ctx.cov["rule"] = (
         f"interval correspondence: every (l,m) with l <= 6 at {len(angles)} angle pairs{'' if quick else f' and 7 <= l <= {Lc} at {len(hi_angles)} of them'} (both poles with several azimuths, equator, negative azimuth, azimuth > 2 pi, "
@@ -697,7 +751,101 @@ def search(ctx: Ctx, gu, mp, pend: Pending, angles):
                      {"kind": "jac", "d": d, "sph": (r, t, p), "expected": g})
 
 
-def outside_principal_range(ctx: Ctx, gu, mp):
+def high_degree(ctx: Ctx, gu, mp, pend: Pending):
+    """High degrees, cheaply: both routines at l_max = 170, 220 (thorough: also 300, 400) on a handful of angle pairs - every row of one
+    against the other, the addition theorem for every degree, and the multiprecision reference on the rows with |m| >= l-2 (where an
+    overflow/underflow of the running normalisation shows first) and on a random sample of the other rows."""
+    quick = ctx.quick
+    rng = ctx.rng
+    pi = math.pi
+    Ls = [170, 220] if quick else [170, 220, 300, 400]
+    pts = [(0.6875, pi / 2), (-2.5, 1.5), (7.90625, 1.75), (1.0, 1.125), (2.0, 0.4375), (0.3125, 0.0)]
+    th, ph = [q[0] for q in pts], [q[1] for q in pts]
+    names = {"A": "generate_real_spherical_harmonics", "B": "generate_real_spherical_harmonics_scipy"}
+    obl = {"A": "search_values_recursion", "B": "search_values_scipy"}
+    fns = {"A": gu.generate_real_spherical_harmonics, "B": gu.generate_real_spherical_harmonics_scipy}
+
+    def ref(l, m, t, p):
+        with mp.workdps(max(120, l)):
+            return float(o_Y(mp, l, m, mp.mpf(t), mp.mpf(p)))
+
+    def report(w, L, l, m, j, val, yo, extra=""):
+        i = row(l, m)
+        pend.add(l, obl[w], f"sph:{w}:{l}:{m}:{th[j]!r}:{ph[j]!r}", float(val),
+                 f"{names[w]}(l_max={L}): (l,m)=({l},{m}) [row {i}] at theta={th[j]!r}, phi={ph[j]!r} is {float(val)!r}, the definition gives {yo!r}{extra}",
+                 {"kind": "sph", "impl": w, "l_max": L, "l": l, "m": m, "theta": th[j], "phi": ph[j], "expected": yo})
+
+    for L in Ls:
+        outs = {}
+        for w in ("A", "B"):
+            try:
+                arr = np.asarray(fns[w](L, np.array(th, dtype=float), np.array(ph, dtype=float)), dtype=float)
+            except Exception as e:  # noqa: BLE001
+                arr = f"{type(e).__name__}: {str(e)[:100]}"
+            if isinstance(arr, str) or arr.shape != ((L + 1) ** 2, len(pts)):
+                pend.add(L, obl[w], f"values:{w}:{L}", str(arr)[:120] if isinstance(arr, str) else str(arr.shape),
+                         f"{names[w]}({L}, ...) failed or has the wrong shape: {str(arr)[:120] if isinstance(arr, str) else arr.shape}",
+                         {"kind": "shape", "fn": names[w], "l_max": L, "theta": th, "phi": ph})
+                continue
+            outs[w] = arr
+        # (i) every row of one routine against the other
+        if len(outs) == 2:
+            A, B = outs["A"], outs["B"]
+            d = np.abs(A - B) - TOL * (1 + np.abs(A))
+            d[~np.isfinite(d)] = 1.0
+            ctx.case(("hi-AvsB", L), traces=A.size)
+            for i, j in sorted(zip(*np.where(d > 0)))[:MAXREP * 2]:
+                l, m = lm_of(int(i))
+                yo = ref(l, m, th[j], ph[j])
+                w = "B" if not close(B[i, j], yo) else "A"
+                report(w, L, l, m, j, outs[w][i, j], yo, f" (recursion {float(A[i, j])!r}, SciPy-based {float(B[i, j])!r})")
+        # (ii) addition theorem for every degree (Legendre polynomials by the stable three-term recurrence, 60 digits)
+        pairs = [(0, 1), (2, 3), (4, 0), (5, 2)]
+        for a, b in pairs:
+            cg = (mp.cos(mp.mpf(ph[a])) * mp.cos(mp.mpf(ph[b])) + mp.sin(mp.mpf(ph[a])) * mp.sin(mp.mpf(ph[b])) * mp.cos(mp.mpf(th[a]) - mp.mpf(th[b])))
+            P = [mp.mpf(1), cg]
+            for k in range(1, L):
+                P.append(((2 * k + 1) * cg * P[k] - k * P[k - 1]) / (k + 1))
+            for w, arr in outs.items():
+                for l in range(L + 1):
+                    sm = float(np.dot(arr[l * l:(l + 1) ** 2, a], arr[l * l:(l + 1) ** 2, b]))
+                    exp = float((2 * l + 1) / (4 * mp.pi) * P[l])
+                    if not (abs(sm - exp) <= 1e-9 * (2 * l + 1)):
+                        pend.add(l, "search_addition_theorem", f"add:{w}:{l}:{th[a]!r}:{ph[a]!r}:{th[b]!r}:{ph[b]!r}", sm,
+                                 f"{names[w]}(l_max={L}): sum_m Y_{l}m(a) Y_{l}m(b) = {sm!r} at a=({th[a]!r},{ph[a]!r}), b=({th[b]!r},{ph[b]!r}); (2l+1)/(4pi) P_l(cos gamma) = {exp!r}",
+                                 {"kind": "add", "impl": w, "l": l, "a": [th[a], ph[a]], "b": [th[b], ph[b]], "expected": exp})
+                        break      # the first failing degree of this pair is enough
+            ctx.case(("hi-add", L, a, b), traces=2 * (L + 1))
+    # (iii) multiprecision reference, largest l_max of the tier: rows with |m| >= l-2 for every l, and a random sample of the others
+    L = Ls[-1]
+    outs = {}
+    for w in ("A", "B"):
+        try:
+            arr = np.asarray(fns[w](L, np.array(th, dtype=float), np.array(ph, dtype=float)), dtype=float)
+            if arr.shape == ((L + 1) ** 2, len(pts)):
+                outs[w] = arr
+        except Exception:  # noqa: BLE001 - already reported above
+            pass
+    sel = [(l, m) for l in range(100, L + 1) for am in range(max(0, l - 2), l + 1) for m in ((am, -am) if am else (0,))]
+    for _ in range(40 if quick else 120):
+        l = rng.randint(100, L)
+        am = rng.randint(0, l - 3)
+        sel.append((l, rng.choice([am, -am])))
+    nrep = {"A": 0, "B": 0}
+    for l, m in sel:
+        with mp.workdps(max(120, l)):
+            fl = [o_F(mp, l, abs(m), mp.mpf(p)) for p in ph]
+            ys = [float(f * o_az(mp, m, mp.mpf(t))) for f, t in zip(fl, th)]
+        ctx.case(("hi-ref", l, m))
+        for w, arr in outs.items():
+            for j in range(len(pts)):
+                if not close(arr[row(l, m), j], ys[j]) and nrep[w] < MAXREP * 2:
+                    nrep[w] += 1
+                    report(w, L, l, m, j, arr[row(l, m), j], ys[j])
+    ctx.count("high_degree_reference_rows", len(sel) * len(pts) * 2)
+
+
+def outside_principal_range(ctx: Ctx, gu, mp, pend):
     """Polar angles outside [0, pi] ("If this angle is outside of bounds, then periodicity is used" in both docstrings):
     the two implementations and the derivative routine are probed at fixed inputs; each disagreement is reported with a stable key
     (listed in known_findings.jsonl when it is a defect of the unchanged code)."""
@@ -709,7 +857,7 @@ def outside_principal_range(ctx: Ctx, gu, mp):
             B = np.asarray(gu.generate_real_spherical_harmonics_scipy(3, np.array([t]), np.array([p])), dtype=float)[:, 0]
             D = np.asarray(gu.generate_derivative_real_spherical_harmonics(3, np.array([t]), np.array([p])), dtype=float)[:, :, 0]
         except Exception as e:  # noqa: BLE001
-            ctx.fail("range_phi_outside", f"phi-outside:crash:{p!r}", f"{type(e).__name__}", f"a harmonics routine raised {type(e).__name__} at theta={t}, phi={p}",
+            pend.add(1, "range_phi_outside", f"phi-outside:crash:{p!r}", f"{type(e).__name__}", f"a harmonics routine raised {type(e).__name__} at theta={t}, phi={p}",
                      {"kind": "outside", "theta": t, "phi": p})
             continue
         first = {"ab": True, "d": True, "a": True}
@@ -719,19 +867,19 @@ def outside_principal_range(ctx: Ctx, gu, mp):
             ctx.case(("outside", p, l, m))
             if not close(A[i], yo) and first["a"]:
                 first["a"] = False
-                ctx.fail("range_phi_outside", f"generate_real_spherical_harmonics({l},[{t}],[{p}])[{i}]", float(A[i]),
+                pend.add(1, "range_phi_outside", f"generate_real_spherical_harmonics({l},[{t}],[{p}])[{i}]", float(A[i]),
                          f"recursion at polar angle {p} outside [0,pi], (l,m)=({l},{m}): {float(A[i])!r}, Y_lm of the point r(sin phi cos theta, sin phi sin theta, cos phi) is {yo!r}",
                          {"kind": "outside", "what": "A", "l": l, "m": m, "theta": t, "phi": p, "expected": yo})
             if not close(B[i], A[i]) and first["ab"]:
                 first["ab"] = False
-                ctx.fail("range_phi_outside", f"generate_real_spherical_harmonics_scipy({l},[{t}],[{p}])[{i}]", float(B[i]),
+                pend.add(1, "range_phi_outside", f"generate_real_spherical_harmonics_scipy({l},[{t}],[{p}])[{i}]", float(B[i]),
                          f"polar angle {p} outside [0,pi] (both docstrings: 'periodicity is used'): the SciPy-based routine returns {float(B[i])!r} for (l,m)=({l},{m}) at theta={t}, "
                          f"the recursion returns {float(A[i])!r} (= Y_lm of the point the parametrisation reaches, {yo!r}); the implementations disagree in sign for odd m",
                          {"kind": "outside", "what": "B", "l": l, "m": m, "theta": t, "phi": p, "expected": yo})
             e1 = float(o_dF(mp, l, abs(m), pm) * o_az(mp, m, tm))
             if not close(D[1, i], e1, 1e-8) and first["d"]:
                 first["d"] = False
-                ctx.fail("range_phi_outside", f"generate_derivative_real_spherical_harmonics({l},[{t}],[{p}])[1,{i}]", float(D[1, i]),
+                pend.add(1, "range_phi_outside", f"generate_derivative_real_spherical_harmonics({l},[{t}],[{p}])[1,{i}]", float(D[1, i]),
                          f"polar angle {p} outside [0,pi]: the routine's d/dphi of (l,m)=({l},{m}) at theta={t} is {float(D[1, i])!r}, the derivative of the function "
                          f"generate_real_spherical_harmonics returns is {e1!r} (the raising term comes from SciPy, which uses |sin phi|)",
                          {"kind": "outside", "what": "D", "l": l, "m": m, "theta": t, "phi": p, "expected": e1})
@@ -749,7 +897,8 @@ def replay(rp):
         fn = gu.generate_real_spherical_harmonics if w == "A" else gu.generate_real_spherical_harmonics_scipy
         L = rp.get("l_max", max(rp["l"], 1))
         v = float(np.asarray(fn(L, np.array([rp["theta"]]), np.array([rp["phi"]])), dtype=float)[row(rp["l"], rp["m"]), 0])
-        exp = float(o_Y(mp, rp["l"], rp["m"], mp.mpf(rp["theta"]), mp.mpf(rp["phi"])))
+        with mp.workdps(max(120, rp["l"])):
+            exp = float(o_Y(mp, rp["l"], rp["m"], mp.mpf(rp["theta"]), mp.mpf(rp["phi"])))
         print(f"{fn.__name__}({L}, [{rp['theta']!r}], [{rp['phi']!r}])[{row(rp['l'], rp['m'])}] = {v!r}; definition: {exp!r}")
         return 0 if close(v, exp) else 1
     if kind == "der" or (kind == "outside" and rp.get("what") == "D"):
